@@ -1,23 +1,34 @@
-(* to_y0 printers of dsl.py (with the repaired bracketing of product denominators). *)
+(* to_y0 printers of dsl.py (with the repaired bracketing of product denominators). An expression is printed as a list of
+   spaced tokens ([toks_gen]) and rendered to text; the text is what every run compares verbatim with y0's str(). *)
 From Coq Require Import List Bool Arith String Ascii.
-From Y0 Require Import Base.ListSet Dsl.Syntax Dsl.Text.
+From Y0 Require Import Base.ListSet Dsl.Syntax Dsl.Text Dsl.Tok.
 Import ListNotations.
 Open Scope string_scope.
 
-Definition iv_y0 (i : nat * bool) : string := sign_str (Some (snd i)) ++ name_str (fst i).
+Definition sign_toks (s : option bool) : list stok :=
+  match s with None => [] | Some true => [sym "+"] | Some false => [sym "-"] end.
+Definition name_tok (n : nat) : stok := nm (name_str n).
 
-Definition var_y0 (v : var) : string :=
+Definition iv_toks (i : nat * bool) : list stok := (sign_toks (Some (snd i)) ++ [name_tok (fst i)])%list.
+
+Definition var_toks (v : var) : list stok :=
   match vk v, vi v with
-  | KCf, [i] => sign_str (vs v) ++ name_str (vn v) ++ " @ " ++ iv_y0 i
-  | KCf, ivs => sign_str (vs v) ++ name_str (vn v) ++ " @ (" ++ join ", " (map iv_y0 ivs) ++ ")"
-  | _, _ => sign_str (vs v) ++ name_str (vn v)
+  | KCf, [i] => (sign_toks (vs v) ++ [name_tok (vn v); ssym "@"] ++ spaced (iv_toks i))%list
+  | KCf, ivs => (sign_toks (vs v) ++ [name_tok (vn v); ssym "@"; ssym "("] ++ jointk (sym ",") true (map iv_toks ivs) ++ [sym ")"])%list
+  | _, _ => (sign_toks (vs v) ++ [name_tok (vn v)])%list
   end.
 
-Definition dist_y0 (ch pa : list var) : string :=
+Definition vars_toks (l : list var) : list stok := jointk (sym ",") true (map var_toks l).
+
+Definition dist_toks (ch pa : list var) : list stok :=
   match pa with
-  | [] => join ", " (map var_y0 ch)
-  | _ => join ", " (map var_y0 ch) ++ " | " ++ join ", " (map var_y0 pa)
+  | [] => vars_toks ch
+  | _ => (vars_toks ch ++ [ssym "|"] ++ spaced (vars_toks pa))%list
   end.
+
+Definition iv_y0 (i : nat * bool) : string := render (iv_toks i).
+Definition var_y0 (v : var) : string := render (var_toks v).
+Definition dist_y0 (ch pa : list var) : string := render (dist_toks ch pa).
 
 Definition strip (v : var) : var := mkVar KVar (vn v) (vs v) [].
 
@@ -28,38 +39,40 @@ Definition level2 (ch pa : list var) : option (list (nat * bool)) :=
   | _ => None
   end.
 
-Definition l2_str (ivs : list (nat * bool)) : string :=
-  join "," (map (fun i : nat * bool => if snd i then "+" ++ name_str (fst i) else name_str (fst i)) ivs).
-
+Definition l2_toks (ivs : list (nat * bool)) : list stok :=
+  jointk (sym ",") false (map (fun i : nat * bool => if snd i then [sym "+"; name_tok (fst i)] else [name_tok (fst i)]) ivs).
 
 Section Printer.
 Variable old : bool.   (* true = pinned tree before the repair: product denominators are not bracketed *)
 
-Definition wrap_den (d : expr) (s : string) : string :=
-  if old then s else match d with EProd _ => "(" ++ s ++ ")" | _ => s end.
+Definition wrap_den (d : expr) (l : list stok) : list stok :=
+  if old then l else match d with EProd _ => ([sym "("] ++ l ++ [sym ")"])%list | _ => l end.
 
-Fixpoint to_y0_gen (e : expr) : string :=
+Fixpoint toks_gen (e : expr) : list stok :=
   match e with
   | EProb pop ch pa =>
-      let head := match pop with None => "P" | Some p => "PP[" ++ var_y0 p ++ "]" end in
+      let head := match pop with None => [nm "P"] | Some p => ([nm "PP"; sym "["] ++ var_toks p ++ [sym "]"])%list end in
       match level2 ch pa with
-      | Some ivs => head ++ "[" ++ l2_str ivs ++ "](" ++ dist_y0 (map strip ch) (map strip pa) ++ ")"
-      | None => head ++ "(" ++ dist_y0 ch pa ++ ")"
+      | Some ivs => (head ++ [sym "["] ++ l2_toks ivs ++ [sym "]"; sym "("] ++ dist_toks (map strip ch) (map strip pa) ++ [sym ")"])%list
+      | None => (head ++ [sym "("] ++ dist_toks ch pa ++ [sym ")"])%list
       end
-  | EProd es => join " * " (map to_y0_gen es)
+  | EProd es => jointk (ssym "*") true (map toks_gen es)
   | ESum e' rs =>
       let s := match e' with
-               | EFrac n d => "(" ++ to_y0_gen n ++ " / " ++ wrap_den d (to_y0_gen d) ++ ")"
-               | _ => to_y0_gen e'
+               | EFrac n d => ([sym "("] ++ toks_gen n ++ [ssym "/"] ++ spaced (wrap_den d (toks_gen d)) ++ [sym ")"])%list
+               | _ => toks_gen e'
                end in
-      "Sum[" ++ join ", " (map var_y0 (by_name_v rs)) ++ "](" ++ s ++ ")"
-  | EFrac n d => "((" ++ to_y0_gen n ++ " / " ++ wrap_den d (to_y0_gen d) ++ "))"
-  | EOne => "One()"
-  | EZero => "Zero()"
-  | EQ dom cod => "Q[" ++ join ", " (map var_y0 (by_name_v cod)) ++ "](" ++ join ", " (map var_y0 (by_name_v dom)) ++ ")"
-  | EErr _ => "<error>"
+      ([nm "Sum"; sym "["] ++ vars_toks (by_name_v rs) ++ [sym "]"; sym "("] ++ s ++ [sym ")"])%list
+  | EFrac n d => ([sym "("; sym "("] ++ toks_gen n ++ [ssym "/"] ++ spaced (wrap_den d (toks_gen d)) ++ [sym ")"; sym ")"])%list
+  | EOne => [nm "One"; sym "("; sym ")"]
+  | EZero => [nm "Zero"; sym "("; sym ")"]
+  | EQ dom cod => ([nm "Q"; sym "["] ++ vars_toks (by_name_v cod) ++ [sym "]"; sym "("] ++ vars_toks (by_name_v dom) ++ [sym ")"])%list
+  | EErr _ => [sym "<"; nm "error"; sym ">"]
   end.
+
+Definition to_y0_gen (e : expr) : string := render (toks_gen e).
 End Printer.
 
+Definition toks := toks_gen false.
 Definition to_y0 := to_y0_gen false.
 Definition to_y0_old := to_y0_gen true.
